@@ -418,6 +418,7 @@ func verifStartLoopWith(w *verifWorld, addrs []string) *verifLoopRun {
 // rest: let nsqd's goroutines run until nothing moves any more.
 func (r *verifLoopRun) rest() {
 	verifrt.Rest()
+	r.w.nativeSettle()
 }
 
 func (r *verifLoopRun) tick() {
@@ -537,9 +538,9 @@ func verifC16LoopChurn() {
 func VerifC16_LookupLoopFaults() { verifrt.Atomic(verifC16LoopFaults) }
 
 func verifC16LoopFaults() {
-	r := verifStartLoop(1, verifrt.Bound("faults", 1, 2))
+	r := verifStartLoop(1, verifrt.Bound("faults", 1, 1))
 	r.checkRest("start")
-	steps := verifrt.Bound("churnSteps", 2, 2)
+	steps := verifrt.Bound("churnSteps", 2, 3)
 	for i := 0; i < steps; i++ {
 		k := verifrt.Choice("op", 5)
 		if i == 0 {
@@ -661,56 +662,165 @@ func verifC16LoopReconfigure() {
 		}
 		return l
 	}
+	// the configured set goes before -> mid -> after (each any subset of the two lookupds), with
+	// topic/channel churn in between; a lookupd may be removed and configured again
 	before := verifrt.Choice("before", 4)
+	mid := verifrt.Choice("mid", 4)
 	after := verifrt.Choice("after", 4)
 	r := verifStartLoopWith(w, pick(before))
 	r.checkRest("start")
 	w.beginStep()
-	r.op(verifrt.Choice("op1", 2))
+	r.op(1)
 	r.rest()
 	w.endStep()
 	r.checkRest("churn")
 
-	// the operator changes --lookupd-tcp-address at run time
-	o := *r.n.getOpts()
-	o.NSQLookupdTCPAddresses = pick(after)
-	w.beginStep()
-	r.n.swapOpts(&o)
-	r.n.triggerOptsNotification()
-	r.rest()
-	w.endStep()
-
-	w.beginStep()
-	r.op(verifrt.Choice("op2", 4))
-	r.rest()
-	w.endStep()
-
-	for i, ld := range w.lds {
-		p := r.peerFor(ld)
-		w.lock()
-		cur := ld.current()
-		open := 0
-		for _, s := range ld.sessions {
-			if !s.closed {
-				open++
+	reconfigure := func(mask int) {
+		// the operator changes --lookupd-tcp-address at run time
+		o := *r.n.getOpts()
+		o.NSQLookupdTCPAddresses = pick(mask)
+		w.beginStep()
+		r.n.swapOpts(&o)
+		r.n.triggerOptsNotification()
+		r.rest()
+		w.endStep()
+	}
+	check := func(mask int) {
+		for i, ld := range w.lds {
+			p := r.peerFor(ld)
+			w.lock()
+			open := 0
+			for _, s := range ld.sessions {
+				if !s.closed {
+					open++
+				}
+			}
+			w.unlock()
+			if mask&(1<<uint(i)) != 0 {
+				verifrt.Assert(p != nil && p.state == stateConnected, "configured-lookupd-has-a-connected-peer")
+				verifrt.Assert(verifInSync(r.n, ld), "configured-lookupd-lists-exactly-current-topics-and-channels")
+				verifrt.Assert(open == 1, "one-connection-per-configured-lookupd")
+			} else {
+				verifrt.Assert(p == nil, "removed-lookupd-has-no-peer")
+				verifrt.Assert(open == 0, "removed-lookupd-connection-is-closed")
 			}
 		}
-		w.unlock()
-		if after&(1<<uint(i)) != 0 {
-			verifrt.Assert(p != nil && p.state == stateConnected, "configured-lookupd-has-a-connected-peer")
-			verifrt.Assert(verifInSync(r.n, ld), "configured-lookupd-lists-exactly-current-topics-and-channels")
-			verifrt.Assert(open == 1, "one-connection-per-configured-lookupd")
-		} else {
-			verifrt.Assert(p == nil, "removed-lookupd-has-no-peer")
-			verifrt.Assert(open == 0, "removed-lookupd-connection-is-closed")
-			_ = cur
-		}
 	}
-	verifrt.Reach("a-lookupd-added", before == 1 && after == 3)
-	verifrt.Reach("lookupd-removed", before == 3 && after == 2)
-	verifrt.Reach("lookupd-replaced", before == 1 && after == 2)
+	reconfigure(mid)
+	check(mid)
+	w.beginStep()
+	r.op(verifrt.Choice("op", 2) + 2) // delete the channel / delete the topic
+	r.rest()
+	w.endStep()
+	check(mid)
+	reconfigure(after)
+	check(after)
+	w.beginStep()
+	r.op(1) // (re-)create topic and channel
+	r.rest()
+	w.endStep()
+	check(after)
+
+	verifrt.Reach("a-lookupd-added", before == 1 && mid == 3 && after == 3)
+	verifrt.Reach("lookupd-removed", before == 3 && mid == 2)
+	verifrt.Reach("lookupd-replaced", mid == 1 && after == 2)
+	verifrt.Reach("lookupd-removed-then-configured-again", before == 1 && mid == 0 && after == 1)
 	verifrt.Assert(!r.exited, "lookup-loop-still-running")
 	close(r.n.exitChan)
 	r.rest()
 	verifrt.Assert(r.exited, "lookup-loop-answers-exit")
+}
+
+// ---------------------------------------------------------------------------------------------
+// C16 part 4c: interleavings of nsqd's own notification goroutines.
+//
+// Every creation/deletion hands its object to lookupLoop through a goroutine of its own
+// (NSQD.Notify). Here a channel is deleted and immediately re-created (a consumer of an
+// ephemeral channel reconnecting, or /channel/delete racing a SUB), so two notifications - the
+// old, exiting object and the new one - are in flight at once, and the executor explores the
+// orders in which their goroutines reach the loop (verifrt.Join, not the canonical schedule).
+// Oracle (statement, first sentence, no lookupd fault involved): at rest the lookupd lists
+// exactly the current channels - i.e. the re-created channel IS listed.
+// Natively the delete/re-create pair is repeated (the order is up to the Go scheduler).
+// ---------------------------------------------------------------------------------------------
+
+func VerifC16_NotifyOrderRace() { verifrt.Atomic(verifC16NotifyOrder) }
+
+func verifC16NotifyOrder() {
+	r := verifStartLoop(1, 0)
+	ld := r.w.lds[0]
+	r.w.beginStep()
+	r.op(1)
+	r.rest()
+	r.w.endStep()
+	r.checkRest("setup")
+	t, err := r.n.GetExistingTopic("t0")
+	verifrt.Assert(err == nil, "setup-topic-exists")
+	if err != nil {
+		return
+	}
+	// hunt: how a native replay realises the scenario. A counterexample needs the Go scheduler
+	// to produce the bad order, so its replay repeats the racy pair (hunt = true is forced on
+	// every counterexample below); the vacuity witness replays the pair with a rest in between.
+	hunt := verifrt.Bool("huntNatively")
+	topicToo := verifrt.Choice("object", 2) == 1 // 0: the channel, 1: the whole topic
+	del := func() {
+		if topicToo {
+			r.n.DeleteExistingTopic("t0")
+		} else {
+			t.DeleteExistingChannel("c0")
+		}
+	}
+	create := func() {
+		if topicToo {
+			t = r.n.GetTopic("t0")
+		} else {
+			t.GetChannel("c0")
+		}
+	}
+	inSync := true
+	if verifrt.Symbolic() {
+		r.w.beginStep()
+		del()
+		create()
+		verifrt.Join() // every order in which the pending goroutines get to run
+		r.w.endStep()
+		inSync = verifInSync(r.n, ld)
+		if !inSync {
+			verifrt.Assume(hunt)
+		}
+	} else if hunt {
+		for i := 0; i < 40 && inSync; i++ {
+			del()
+			create()
+			r.rest()
+			inSync = verifInSync(r.n, ld)
+		}
+	} else {
+		del()
+		r.rest()
+		create()
+		r.rest()
+		inSync = verifInSync(r.n, ld)
+	}
+	if !inSync && !verifrt.Symbolic() {
+		r.w.lock()
+		line := "VERIF-NOTE lookupd received:"
+		for _, c := range ld.current().cmds {
+			line += " [" + c.name + " " + c.topic + " " + c.channel + "]"
+		}
+		r.w.unlock()
+		println(line)
+	}
+	if topicToo {
+		_, errT := r.n.GetExistingTopic("t0")
+		verifrt.Assert(errT == nil, "recreated-topic-exists-on-nsqd")
+		verifrt.Assert(inSync, "recreated-object-is-listed-whatever-the-notification-order")
+		verifrt.Reach("topic-delete-then-recreate", inSync && !hunt)
+	} else {
+		_, errC := t.GetExistingChannel("c0")
+		verifrt.Assert(errC == nil, "recreated-channel-exists-on-nsqd")
+		verifrt.Assert(inSync, "recreated-object-is-listed-whatever-the-notification-order")
+		verifrt.Reach("a-delete-then-recreate", inSync && !hunt)
+	}
 }
